@@ -24,6 +24,8 @@ type Duplex struct {
 	DropC2S, DropS2C map[int]bool
 	// CutBeforeC2S / CutBeforeS2C: the pipe breaks when frame n of that direction is about to be sent (-1 = never).
 	CutBeforeC2S, CutBeforeS2C int
+	// AsyncWriteErrors: a failed write is reported by the read loop only (not from inside Send).
+	AsyncWriteErrors bool
 	// Latency: every frame is delivered this much (virtual time) after it was sent; order is kept.
 	Latency time.Duration
 
@@ -104,6 +106,11 @@ func (e *DuplexEnd) Send(packets ...*parser.Packet) {
 		if brk {
 			e.wake()
 			e.peer().wake()
+			// like the real WebSocket / WebTransport transports, whose Send closes the transport when a write
+			// fails: the close is reported synchronously, on the sender's goroutine, from inside Send
+			if !e.d.AsyncWriteErrors {
+				e.fail(errors.New("duplex: write failed, connection lost"))
+			}
 			return
 		}
 		if deliver {
